@@ -76,12 +76,16 @@ def hostfile(rng, hosts, np_):
     return [hosts[(i * k // np_) % len(hosts)] for i in range(np_)]
 
 
-def config(rng):
-    """SMPI options given identically to the online run and to the replay."""
+def config(rng, avoid=()):
+    """SMPI options given identically to the online run and to the replay.
+    avoid "smp-selectors": no selector whose algorithms call Comm::init_smp() (mpich, mvapich2, impi)."""
     cfg = []
     r = rng.random()
     if r < 0.25:
-        cfg.append("--cfg=smpi/coll-selector:%s" % rng.choice(["mpich", "ompi", "mvapich2", "impi"]))
+        sel = rng.choice(["mpich", "ompi", "mvapich2", "impi"])
+        if "smp-selectors" in avoid:
+            sel = "ompi"
+        cfg.append("--cfg=smpi/coll-selector:%s" % sel)
     if rng.random() < 0.35:
         cfg.append("--cfg=smpi/send-is-detached-thresh:%d" % rng.choice([0, 1000, 65535, 65537, 1000000]))
     if rng.random() < 0.3:
@@ -126,8 +130,8 @@ def _count(rng, dt, big=True):
 class Prog:
     """Builder of a global event sequence. lines = script lines; kinds = set of action kinds used."""
 
-    def __init__(self, rng, np_, exclude=()):
-        self.rng, self.np, self.exclude = rng, np_, set(exclude)
+    def __init__(self, rng, np_, exclude=(), avoid=()):
+        self.rng, self.np, self.exclude, self.avoid = rng, np_, set(exclude), set(avoid)
         self.events = []          # list of events; an event = list of script lines that must stay together
         self.kinds = {}
         self.pending = [dict() for _ in range(np_)]        # rank -> {slot: (src, dst, tag)}
@@ -153,7 +157,7 @@ class Prog:
         for _ in range(50):
             t = self.rng.choice([0, 0, 1, 2, 7, 42, 1000, 32767])
             k = (a, b, t)
-            if k in self.burnt[a] or k in self.burnt[b]:
+            if "test-key-reuse" in self.avoid and (k in self.burnt[a] or k in self.burnt[b]):
                 continue
             if k in self.pending[a].values() or k in self.pending[b].values():
                 continue
@@ -230,10 +234,11 @@ class Prog:
             self.emit("*", kind, _count(rng, dt), dt)
         elif kind in ("alltoall", "allgather"):
             dt = rng.choice(P2P_DT)
-            self.emit("*", kind, max(1, _count(rng, dt, big=False)), dt)
+            self.emit("*", kind, _count(rng, dt, big=False), dt)
         elif kind in ("gather", "scatter"):
             dt = rng.choice(P2P_DT)
-            self.emit("*", kind, max(1, _count(rng, dt, big=False)), root, dt)
+            c = _count(rng, dt, big=False)
+            self.emit("*", kind, max(1, c) if "zero-gather-scatter" in self.avoid else c, root, dt)
         elif kind == "alltoallv":
             dt = rng.choice(P2P_DT)
             m = [[_count(rng, dt, big=False) if rng.random() < 0.8 else 0 for _ in range(n)] for _ in range(n)]
@@ -300,8 +305,10 @@ def script(events, close=False):
     return "\n".join([l for e in events for l in e] + (["* waitall"] if close else [])) + "\n"
 
 
-def program(rng, np_, nev, exclude=(), weights=None):
-    p = Prog(rng, np_, exclude)
+def program(rng, np_, nev, exclude=(), weights=None, avoid=()):
+    """avoid: names of known-finding triggers to keep out ("test-key-reuse": never reuse the (src,dst,tag) of a request
+    that was MPI_Test'ed; "zero-gather-scatter": no zero count in gather/scatter)."""
+    p = Prog(rng, np_, exclude, avoid)
     w = weights or rng.choice([(5, 1, 3, 3), (2, 1, 6, 1), (8, 2, 1, 4), (3, 0, 0, 3)])
     for _ in range(nev):
         x = rng.random() * sum(w)
